@@ -54,6 +54,9 @@ func (c Command) Byte() byte {
 
 // ValidateType will check if the supplied string starts with the given command type and return an error if its not.
 func (c Command) ValidateType(data []byte) error {
+	if len(data) == 0 {
+		return errors.Errorf("Invalid command type. Expected %v, got no data at all", c)
+	}
 	if !c.IsOfType(data) {
 		return errors.Errorf("Invalid command type. Expected %v, got, %v", c, data[0])
 	}
@@ -62,7 +65,7 @@ func (c Command) ValidateType(data []byte) error {
 
 // IsOfType will check if the supplied string starts with the given command type
 func (c Command) IsOfType(data []byte) bool {
-	if data == nil || len(data) < 0 {
+	if len(data) == 0 {
 		return false
 	}
 	if data[0] == c.Code {
@@ -106,9 +109,15 @@ func DecodeRequestHeader(c Command, req []byte) (remaining []byte, userId uint16
 		return req, 0, err
 	}
 
+	if len(req) < 4 {
+		return req, 0, errors.Errorf("Request too short: %q", req)
+	}
 	req = req[4:] // Remove command type + cache
 
 	if c.NeedsUserId {
+		if len(req) < 2 {
+			return req, 0, errors.Errorf("Request too short, no user id: %q", req)
+		}
 		u, err := strconv.ParseUint(string(req[0:2]), 36, 16)
 		if err != nil {
 			return req, 0, err
